@@ -1375,6 +1375,12 @@ class SpaceManager(SharedSpaceOperations):
 
         for subspace in self._get_subs(space):
             if name in subspace.cells:
+                sub_cells = subspace.cells[name]
+                if sub_cells.is_derived():
+                    # Derived from another base space. Re-derive in case
+                    # the new cells precedes the current base in the MRO.
+                    subspace.clear_subs_rootitems()
+                    sub_cells.on_inherit(self, sub_cells.defined_bases)
                 continue
             else:
                 subspace.clear_subs_rootitems()
